@@ -45,6 +45,12 @@ type Case struct {
 	// error) for the history of the FailAt-th (1-based, modulo) modified or
 	// deleted element.
 	FailAt int
+	// IgnoreFirst: IgnoreMissingChildren(!Ignore) is passed first and
+	// IgnoreMissingChildren(Ignore) after it: the later option decides.
+	IgnoreFirst bool
+	// VerBase is added to every version number (elements and histories):
+	// versions beyond 16 bits are ordinary integers here.
+	VerBase int
 }
 
 var errBackend = errors.New("c13: injected backend failure")
@@ -127,6 +133,19 @@ func single(o *osm.OSM) (osm.Element, int) {
 	return nil, n
 }
 
+// versionOf reads the version field itself (an ElementID keeps 16 bits only).
+func versionOf(e osm.Element) int {
+	switch x := e.(type) {
+	case *osm.Node:
+		return x.Version
+	case *osm.Way:
+		return x.Version
+	case *osm.Relation:
+		return x.Version
+	}
+	return -1
+}
+
 func visible(e osm.Element) bool {
 	switch x := e.(type) {
 	case *osm.Node:
@@ -196,7 +215,7 @@ func check(c Case) error {
 		}
 		best, ok := -1, false
 		for _, v := range hist[k] {
-			if v < eid.Version() && v > best {
+			if v < versionOf(e) && v > best {
 				best, ok = v, true
 			}
 		}
@@ -224,7 +243,9 @@ func check(c Case) error {
 	}
 
 	var opts []annotate.Option
-	if c.Ignore {
+	if c.IgnoreFirst {
+		opts = append(opts, annotate.IgnoreMissingChildren(!c.Ignore), annotate.IgnoreMissingChildren(c.Ignore))
+	} else if c.Ignore {
 		opts = append(opts, annotate.IgnoreMissingChildren(true))
 	}
 	if c.OtherOpts&1 != 0 {
@@ -295,7 +316,7 @@ func check(c Case) error {
 		if cn != 1 || co != 1 || n != w.elem {
 			return harness.Failf("C13/update-shape", "%s action %d: new/old do not hold exactly one element each (new is the changed element: %v)", w.typ, i, n == w.elem)
 		}
-		if o.ElementID().FeatureID() != w.elem.FeatureID() || o.ElementID().Version() != w.prevVer {
+		if o.ElementID().FeatureID() != w.elem.FeatureID() || versionOf(o) != w.prevVer {
 			return harness.Failf("C13/wrong-old", "%s of %v paired with old %v, want version %d (history %v)", w.typ, w.elem.ElementID(), o.ElementID(), w.prevVer, histOf(hist, w.elem))
 		}
 		if !fromHistory(ds, o) {
@@ -410,7 +431,7 @@ func genElems(t *rapid.T, label string) []Elem {
 func TestChange(t *testing.T) {
 	harness.Run(t, harness.Spec[Case]{
 		Name: "change", N: 20000,
-		Rule: "changes with 0..5 created, modified and deleted elements each (nodes, ways, relations over a small id space so ids collide; nil or empty blocks) x histories per element: missing entirely, present but empty, unsorted, with version gaps, with the element's own and later versions, duplicates; with/without IgnoreMissingChildren; a third of the cases add options Change does not react to (IgnoreInconsistency, Threshold, ChildFilter); one case in eight injects a data source failure that is not a not-found error for one modified/deleted element (Change must return it; any other outcome is judged as usual); oracle = reference pairing (create->modify->delete, node->way->relation, old = greatest version below own taken from the history by pointer identity, visibility flags, typed error naming the first element without predecessor, create fallback when ignoring); non-trivial = a modified/deleted element whose history is unsorted or holds its own/later versions",
+		Rule: "changes with 0..5 created, modified and deleted elements each (nodes, ways, relations over a small id space so ids collide; nil or empty blocks) x histories per element: missing entirely, present but empty, unsorted, with version gaps, with the element's own and later versions, duplicates; with/without IgnoreMissingChildren (a quarter passing the opposite value first: the later option decides), a quarter with all version numbers shifted to around 2^16, 2^17 or 2^20 so that histories straddle those boundaries; a third of the cases add options Change does not react to (IgnoreInconsistency, Threshold, ChildFilter); one case in eight injects a data source failure that is not a not-found error for one modified/deleted element (Change must return it; any other outcome is judged as usual); oracle = reference pairing (create->modify->delete, node->way->relation, old = greatest version below own taken from the history by pointer identity, visibility flags, typed error naming the first element without predecessor, create fallback when ignoring); non-trivial = a modified/deleted element whose history is unsorted or holds its own/later versions",
 		Gen: func(t *rapid.T) Case {
 			c := Case{Create: genElems(t, "c"), Modify: genElems(t, "m"), Delete: genElems(t, "d"), Ignore: rapid.Bool().Draw(t, "ignore"),
 				NilCreate: rapid.Bool().Draw(t, "nc"), NilModify: rapid.Bool().Draw(t, "nm"), NilDelete: rapid.Bool().Draw(t, "nd")}
@@ -436,6 +457,30 @@ func TestChange(t *testing.T) {
 			}
 			if rapid.IntRange(0, 7).Draw(t, "fault?") == 0 {
 				c.FailAt = rapid.IntRange(1, 10).Draw(t, "failAt")
+			}
+			c.IgnoreFirst = rapid.IntRange(0, 3).Draw(t, "ignoreFirst") == 0
+			if rapid.IntRange(0, 3).Draw(t, "verBase?") == 0 {
+				c.VerBase = rapid.SampledFrom([]int{65530, 65535, 131070, 1 << 20}).Draw(t, "verBase")
+				for i := range c.Create {
+					c.Create[i].Version += c.VerBase
+				}
+				for i := range c.Modify {
+					c.Modify[i].Version += c.VerBase
+				}
+				for i := range c.Delete {
+					c.Delete[i].Version += c.VerBase
+				}
+				for i := range c.Hists {
+					for j := range c.Hists[i].Versions {
+						// half of the history stays below the base: histories that
+						// straddle a 16-bit boundary
+						if (i+j)%2 == 0 {
+							c.Hists[i].Versions[j] += c.VerBase
+						} else {
+							c.Hists[i].Versions[j] += c.VerBase - 12
+						}
+					}
+				}
 			}
 			return c
 		},
